@@ -366,6 +366,23 @@ Proof.
     rewrite !map_fst_combine by (rewrite map_length, states_length, seq_length; reflexivity). reflexivity.
 Qed.
 
+(* checkpoint at ANY position of a run: saving after rs1, loading into an initialised sampler `fresh` and drawing rs2
+   adds to fresh's history exactly the entries the uninterrupted run rs1 ++ rs2 records after position |rs1|, and ends
+   in the same saved state *)
+Lemma checkpoint_any_position c (s fresh : sampler) rs1 rs2 :
+  let full := sample c s (rs1 ++ rs2) in
+  let mid := sample c s rs1 in
+  let res := sample c (load (proj (st mid)) fresh) rs2 in
+  smp full = smp mid ++ skipn (length (smp fresh)) (smp res) /\
+  length (skipn (length (smp fresh)) (smp res)) = length rs2 /\
+  proj (st res) = proj (st full).
+Proof.
+  intros full mid res. subst full mid res.
+  rewrite (sample_app Cfg St Rnd Pt Acc step point c s rs1 rs2).
+  destruct (resume c (sample c s rs1) fresh rs2) as (E & (x & X1 & X2 & X3) & _ & _).
+  rewrite X1, X2, skipn_app, skipn_all, Nat.sub_diag. cbn [app skipn]. repeat split; assumption.
+Qed.
+
 End ResumeProofs.
 
 (* ---------------------------------------------------------------------------------------------- *)
